@@ -626,12 +626,12 @@ func dirState(dir string, cfg Config) string {
 }
 
 // Harness_C09_stale: a write through a stale handle never commits, leaves the directory unchanged, refreshes the handle; the retry succeeds with a fresh update index.
-// bounds: sequential histories: handle H1 opens on a stack of 2 tables; another handle performs 1..2 operations from {Add, CompactAll, CompactAll with expiry}; then H1 attempts Add, NewAddition, CompactAll, Add with auto-compaction, or Clean; then H1 retries Add
+// bounds: sequential histories: handle H1 opens on a stack of 3 tables; another handle performs 1..2 operations from {Add, CompactAll, CompactAll with expiry, compaction of the two oldest tables (the top table keeps its name)}; then H1 attempts Add, NewAddition, CompactAll, Add with auto-compaction, or Clean; then H1 retries Add
 // covers: done
 func Harness_C09_stale() {
 	cfg := stackCfg(0)
 	dir := VerifTempDir()
-	seedStack(dir, cfg, 2)
+	seedStack(dir, cfg, 3)
 	VerifAs(1)
 	h1 := mustOpen(dir, cfg, "open-h1")
 	VerifAs(2)
@@ -640,9 +640,18 @@ func Harness_C09_stale() {
 		return
 	}
 	k := VerifIntRange(1, 2)
-	maxCommitted := uint64(2)
+	maxCommitted := uint64(3)
 	for i := 0; i < k; i++ {
-		switch VerifChoose(3) {
+		switch VerifChoose(4) {
+		case 3:
+			// a compaction below the top table: the newest table keeps its name
+			if len(h2.stack) >= 3 {
+				ok, err := h2.compactRange(0, 1, nil)
+				VerifAssert(ok && err == nil, "interfering-partial-compaction")
+			} else {
+				VerifAssert(addTxn(h2, byte(4+i), true) == nil, "interfering-add")
+				maxCommitted++
+			}
 		case 0:
 			VerifAssert(addTxn(h2, byte(4+i), true) == nil, "interfering-add")
 			maxCommitted++
@@ -655,7 +664,9 @@ func Harness_C09_stale() {
 	VerifAs(0)
 	before := dirState(dir, cfg)
 	VerifAs(1)
-	stale, _ := h1.UpToDate()
+	fresh, _ := h1.UpToDate()
+	stale := !fresh
+	VerifAssert(stale, "stale-handle-reported-up-to-date")
 	what := VerifChoose(5)
 	var err error
 	switch what {
@@ -698,6 +709,7 @@ func Harness_C09_stale() {
 		VerifAssert(e == nil && ok, "handle-not-refreshed-after-failed-add")
 		VerifAssert(h1.NextUpdateIndex() > maxCommitted, "next-update-index-not-beyond-committed")
 		VerifAssert(addTxn(h1, 8, true) == nil, "retry-after-refresh-failed")
+		VerifCover("retried")
 		VerifAs(0)
 		fin := mustOpen(dir, cfg, "final-open")
 		if fin != nil {
@@ -728,7 +740,7 @@ func consistentSnapshot(s stackSnapshot, nInit int, writerID byte) bool {
 }
 
 // Harness_C10_reader: a handle that reloads (or fails to) while others add and compact keeps reading one committed snapshot.
-// bounds: reader handle R runs reload then a full scan; concurrently one writer handle runs Add, CompactAll, compactRange(0,1), or Add followed by a compaction of the top two tables (thorough: two writers, Add and CompactAll); stack of 3 tables; every schedule with <= 3 preemptions (thorough: <= 2 with three processes)
+// bounds: reader handle R runs reload then a full scan; concurrently one writer handle runs Add, CompactAll, compactRange(0,1), Add followed by a compaction of the top two tables, or compaction of the bottom two tables + Add + compaction of the top two (thorough: two writers, Add and CompactAll); stack of 3 tables; every schedule with <= 3 preemptions (thorough: <= 2 with three processes)
 // covers: done
 func Harness_C10_reader() {
 	cfg := stackCfg(0)
@@ -748,7 +760,7 @@ func Harness_C10_reader() {
 	if r == nil || w == nil {
 		return
 	}
-	wop := VerifChoose(4)
+	wop := VerifChoose(5)
 	if w2 != nil {
 		wop = 0
 	}
@@ -771,6 +783,12 @@ func Harness_C10_reader() {
 			w.compactRange(0, 1, nil)
 		case 3:
 			// a new table appears in the list and is compacted away again
+			if addTxn(w, 7, true) == nil && len(w.stack) >= 2 {
+				w.compactRange(len(w.stack)-2, len(w.stack)-1, nil)
+			}
+		case 4:
+			// the bottom of the list is replaced (positions of kept tables shift), a table is added and compacted away
+			w.compactRange(0, 1, nil)
 			if addTxn(w, 7, true) == nil && len(w.stack) >= 2 {
 				w.compactRange(len(w.stack)-2, len(w.stack)-1, nil)
 			}
